@@ -144,6 +144,9 @@ func extractJsonParams(params Params) (jsonParams, error) {
 			if err != nil {
 				return jsonParams{}, fmt.Errorf("each value in %q must be int", jsonMaxFieldsSizeParam)
 			}
+			if vInt < 0 {
+				return jsonParams{}, fmt.Errorf("each value in %q must not be negative", jsonMaxFieldsSizeParam)
+			}
 			maxFieldsSize[k] = vInt
 		}
 	}
